@@ -79,9 +79,10 @@ def anyPred (ps : List (Bytes → Bool)) (cfg : Cfg) (rb : Bytes) : Bool :=
 /-- `e.ChannelResponse != "" && !e.HideInput` -/
 def echoAwaited (e : Event) : Bool := e.resp.isSome && !e.hidden
 
-/-- `ReadUntilFuzzy` returns at once, reading nothing, for an empty input
-    (`ReadUntilExplicit` does not) -/
-def echoImmediate (cfg : Cfg) (input : Bytes) : Bool := !cfg.exact && input.isEmpty
+/-- `ReadUntilFuzzy` and `ReadUntilExplicit` return at once, reading nothing, for an empty input
+    (`ReadUntilExplicit` only since the repair of finding C01-empty-command-exact; the matching mode
+    no longer enters) -/
+def echoImmediate (_cfg : Cfg) (input : Bytes) : Bool := input.isEmpty
 
 /-- the echo read of an operation: `(completed, consumed, left)` -/
 def echoRead (cfg : Cfg) (input : Bytes) (q : List Bytes) : Bool × List Bytes × List Bytes :=
